@@ -347,8 +347,13 @@ def splice_module(text, mod_path, fnspecs, gen, twin=False):
                     mv = re.search(r'__[a-z]+\d+', ht0) or (re.findall(r'__[a-z]+\d+', text[max(it.body_open, kw0 - 80):kw0]) or [None])[-1]
                     if mv is None: raise Unsupported(f'lost anchor: generated variable for loop alias {ls.alias} in {fs.path}')
                     subst['$' + ls.alias] = mv if isinstance(mv, str) else mv.group(0)
+                    allv = re.findall(r'__[a-z]+\d+', ht0)
+                    uniq = []
+                    for v_ in allv:
+                        if v_ not in uniq: uniq.append(v_)
+                    if len(uniq) > 1: subst['$' + ls.alias + '2'] = uniq[1]
             def sub(tx):
-                for k_, v_ in subst.items(): tx = tx.replace(k_, v_)
+                for k_, v_ in sorted(subst.items(), key=lambda kv: -len(kv[0])): tx = tx.replace(k_, v_)
                 return tx
             for ls in fs.loops:
                 for c in ls.invariants + ls.ensures + ls.except_break: c.text = sub(c.text)
